@@ -1806,6 +1806,14 @@ namespace bloch::compiler {
                                  "conditional statement requires 'boolean' or 'bit' condition");
             }
         }
+        // A branch is a single statement without a scope of its own: a declaration there would be
+        // visible after the conditional whether or not its branch ran.
+        for (Statement* branch : {node.thenBranch.get(), node.elseBranch.get()}) {
+            if (dynamic_cast<VariableDeclaration*>(branch)) {
+                throw BlochError(ErrorCategory::Semantic, branch->line, branch->column,
+                                 "a declaration cannot be a branch of a conditional statement");
+            }
+        }
         if (node.thenBranch)
             node.thenBranch->accept(*this);
         if (node.elseBranch)
